@@ -9,3 +9,8 @@ open GoRedis
 #print axioms C05_unknown_command
 #print axioms C05_case_insensitive
 #print axioms C05_source_commands_match_model
+#print axioms C05_expire
+#print axioms C05_pop
+#print axioms C05_scan
+#print axioms C05_range_options
+#print axioms C05_zrangebyscore
